@@ -32,9 +32,9 @@ def pairs : List Float → List (Float × Float)
 def hexap (nx ny : Int) (dx : Float) (rings : Nat) (D gap : Float) (rot90 : Bool) (excl : List Nat) : String :=
   let rseg := circumradius w3 D
   let P := pitch w3 D gap
-  let sps := truncF (rseg / dx + 1)
-  let cx := (nx + 1) / 2
-  let cy := (ny + 1) / 2
+  let sps := truncF (rseg / dx + Float.ofInt spsOffset)
+  let cx := centreIndex nx
+  let cy := centreIndex ny
   let segs := segments rings excl
   " ".intercalate <| segs.map fun (id, h) =>
     let c := if id = 0 then ((0 : Float), (0 : Float)) else
